@@ -22,6 +22,8 @@ for d in sorted(glob.glob(os.path.join(ROOT, "seeded/*/meta.json"))):
             own = "yes (also at first evaluation)"
     if m.get("note") and "First evaluation" in m.get("note", ""):
         own = f"{own} (first evaluation: no; caught after strengthening)" if "first evaluation" not in own else own
+    if m.get("thorough_check"):
+        own = f"{own} - quick tier; **yes in the thorough tier** ({m['thorough_check'].get('wall_s')} s)"
     rows.append("| {} | {} | {} | {} | {} |".format(m["id"], m.get("summary", "").replace("|", "\\|").replace("\n", " ")[:260], m.get("needs", "").replace("|", "\\|").replace("\n", " ")[:240], own, " ".join(m.get("caught_by", []))))
 seeded = "| id | change | needs | caught by its own property's quick check | quick checks that report a violation |\n|---|---|---|---|---|\n" + "\n".join(rows)
 mut = ""
